@@ -26,6 +26,11 @@ func runC09(c *Ctx) {
 	c.R.Rule = "rows events per (cfg, kind write/update/delete, column-count class up to 300, rows 0..R, has NULL, has absent column, extra-data) and per covered (type family, NULL?, absent?) cell tuple; distinct = distinct tuples; trivial = single fixed-width column"
 	r := c.Rng
 	n := c.N(150, 3000)
+	type bigCell struct{ lb, n int }
+	bigs := []bigCell{{2, 65535}, {3, 65535}, {3, 65536}, {3, 65536 + 300}, {3, 196608 + 7}, {4, 65536}}
+	if c.Thorough() {
+		bigs = append(bigs, bigCell{2, 65534}, bigCell{3, 131071}, bigCell{3, 131072}, bigCell{3, 300000}, bigCell{4, 70000}, bigCell{4, 262144})
+	}
 	for k := 0; k < n; k++ {
 		cfg := randCfg(r)
 		fi := mkFormat(c, cfg, []byte("5.7.1-log"))
@@ -38,6 +43,27 @@ func runC09(c *Ctx) {
 		nrows := r.Pick(0, 1, 1, 2, 3, 5)
 		if nc > 100 {
 			nrows = r.Intn(2)
+		}
+		// values whose length needs the high-order length bytes of a 2/3/4-byte prefix, between two small columns
+		// (a cell that is cut wrongly misaligns everything after it)
+		if k < len(bigs) {
+			bg := bigs[k]
+			nc, nrows = 3, 2
+			t = genTable(r, 0, cfg)
+			first := true
+			t.cols = []colDef{genColumnCase(r, 0, 0),
+				{ty: sym("blob", int64(bg.lb), int64(249+r.Intn(4))), key: "blob", nullable: true, field: "big", gen: func(r *vh.Rng) vh.Val {
+					if first {
+						first = false
+						return randBytesVal(r, bg.n)
+					}
+					return randBytesVal(r, r.Intn(300))
+				}},
+				genColumnCase(r, 2, 16)}
+			for i := range t.cols {
+				t.cols[i].nullable = true
+			}
+			c.R.Count(fmt.Sprintf("rows-bigcell/lb%d/%s", bg.lb, lenClass(bg.n)))
 		}
 		rd := genRows(r, t, kind, nrows, cfg)
 		// table map through the specification encoder -> *TableMap for the implementation
